@@ -66,6 +66,8 @@ fn signature(prop: &str, clause: &str, prog: &Program, known: &[report::Known]) 
 
 pub fn check(prop: &'static str, tier: Tier, fams: Vec<Family>, owned: &[&str], threads: usize) -> CheckOutcome {
     let t0 = Instant::now();
+    // wall cap of the whole check: what is still running then is reported as capped
+    sched::set_deadline_in(if tier == Tier::Quick { 50 } else { 900 });
     let known = report::load_known();
     let mut violations: Vec<Violation> = vec![];
     let mut fam_cov: Vec<Value> = vec![];
